@@ -1209,6 +1209,12 @@ def _create_converter(dataType):
             return obj
 
         if isinstance(obj, (tuple, list)):
+            if len(obj) != len(names):
+                # the inferred schema may be wider (or, inferred from the
+                # first record only, narrower) than this record
+                raise ValueError(
+                    f"Length of object ({len(obj)}) does not match with length of fields ({len(names)})"
+                )
             if convert_fields:
                 return tuple(c(v) for v, c in zip(obj, converters))
             return tuple(obj)
